@@ -546,11 +546,11 @@ func c19CheckLineRel(ctx *Ctx, res *Result, quads []c19Quad) {
 // ---------- driver ----------
 
 func runC19(ctx *Ctx) *Result {
-	res := &Result{Rule: "paths: every path of <=K components over {a,b,pkg,mk,wip,.,..,\"\"} joined by '/', relative and with a leading '/', plus the empty path (K=3 quick, 4 thorough); unary functions on all of them; the three predicates on all ordered pairs (thorough: <=4 x <=3 and <=3 x <=4); filepath.Rel/Path.Rel on all pairs of <=2-component paths plus random pairs; Relpath on every (from,to) of <=2-component paths for every (cwd, pkgsrc root) configuration (root at depth 0..3 above cwd, relative/absolute/redundant) plus random quadruples of <=K-component paths; Line.Rel on a sample. Non-trivial = a predicate pair with at least one of the six verdicts (3 implementation, 3 specification) true, or a Relpath quadruple with `from` inside the tree and cfrom != cto; all counted cases are distinct by construction (exhaustive part) "}
+	res := &Result{Rule: "paths: every path of <=K components over {a,b,pkg,mk,wip,.,..,\"\"} joined by '/', relative and with a leading '/', plus the empty path (K=3 quick, 4 thorough); unary functions on all of them; the three predicates on all ordered pairs (thorough: all pairs of <=4-component paths); filepath.Rel/Path.Rel on all pairs of <=2-component paths plus random pairs; Relpath on every (from,to) of <=2-component (thorough: <=3-component) paths for every (cwd, pkgsrc root) configuration (root at depth 0..3 above cwd, relative/absolute/redundant) plus random quadruples of <=K-component paths; Line.Rel on a sample. Non-trivial = a predicate pair with at least one of the six verdicts (3 implementation, 3 specification) true, or a Relpath quadruple with `from` inside the tree and cfrom != cto; all counted cases are distinct by construction (exhaustive part) "}
 	rng := NewRng(ctx.Seed)
 	maxComp, nrandRel, nrandQuad := 3, 20000, 60000
 	if ctx.Tier == "thorough" {
-		maxComp, nrandRel, nrandQuad = 4, 300000, 1500000
+		maxComp, nrandRel, nrandQuad = 4, 300000, 3000000
 	}
 	paths := c19Paths(maxComp)
 	small := c19Paths(2)
@@ -563,19 +563,14 @@ func runC19(ctx *Ctx) *Result {
 	}
 
 	if ctx.Tier == "thorough" {
-		p3 := c19Paths(3)
-		c19CheckPreds(ctx, res, paths, p3, nontrivial)
-		var only4 []string
-		in3 := map[string]bool{}
-		for _, s := range p3 {
-			in3[s] = true
-		}
-		for _, s := range paths {
-			if !in3[s] {
-				only4 = append(only4, s)
+		// all ordered pairs, in slices of rows to bound the memory
+		for lo := 0; lo < len(paths) && res.Broken == ""; lo += 1024 {
+			hi := lo + 1024
+			if hi > len(paths) {
+				hi = len(paths)
 			}
+			c19CheckPreds(ctx, res, paths[lo:hi], paths, nontrivial)
 		}
-		c19CheckPreds(ctx, res, p3, only4, nontrivial)
 	} else {
 		c19CheckPreds(ctx, res, paths, paths, nontrivial)
 	}
@@ -598,19 +593,43 @@ func runC19(ctx *Ctx) *Result {
 	}
 
 	var quads []c19Quad
+	nexh := 0
+	exh := small
+	if ctx.Tier == "thorough" {
+		exh = c19Paths(3)
+	}
 	for _, cfg := range c19Configs {
 		for _, top := range cfg.tops {
-			for _, from := range small {
-				for _, to := range small {
+			for _, from := range exh {
+				for _, to := range exh {
 					quads = append(quads, c19Quad{cfg.cwd, top, from, to})
+				}
+			}
+			if ctx.Tier == "thorough" { // one configuration at a time: 1.2 * 10^6 quadruples each
+				nexh += len(quads)
+				c19CheckRelpath(ctx, res, quads, nontrivial)
+				quads = quads[:0]
+				if res.Broken != "" {
+					return res
 				}
 			}
 		}
 	}
-	nexh := len(quads)
+	nexh += len(quads)
+	small = exh
+	seenQuad := map[c19Quad]bool{}
+	isSmall := map[string]bool{}
+	for _, s := range small {
+		isSmall[s] = true
+	}
 	for i := 0; i < nrandQuad; i++ {
 		cfg := Pick(rng, c19Configs)
-		quads = append(quads, c19Quad{cfg.cwd, Pick(rng, cfg.tops), Pick(rng, paths), Pick(rng, paths)})
+		qd := c19Quad{cfg.cwd, Pick(rng, cfg.tops), Pick(rng, paths), Pick(rng, paths)}
+		if seenQuad[qd] || (isSmall[qd.from] && isSmall[qd.to]) { // distinct, and not in the exhaustive part
+			continue
+		}
+		seenQuad[qd] = true
+		quads = append(quads, qd)
 	}
 	res.Count("relpath_exhaustive_quadruples", nexh)
 	c19CheckRelpath(ctx, res, quads, nontrivial)
@@ -631,6 +650,18 @@ func runC19(ctx *Ctx) *Result {
 		}
 	}
 
+	// the other parts of the domain must be populated too
+	for _, fl := range []struct {
+		key string
+		min int
+	}{{"pred_HasPrefixPath_true", 1000}, {"pred_ContainsPath_true", 1000}, {"pred_HasSuffixPath_true", 500},
+		{"rel_ok", 1000}, {"rel_error", 100}, {"ops_root_only", 4}, {"ops_with_dotdot", 100}, {"ops_with_double_slash", 50}} {
+		if n, _ := res.Distribution[fl.key].(int); n < fl.min {
+			res.Broken = fmt.Sprintf("coverage floor missed: %s = %d < %d", fl.key, n, fl.min)
+			return res
+		}
+	}
+
 	var lquads []c19Quad
 	for _, cfg := range c19Configs[:3] {
 		for _, top := range cfg.tops[:3] {
@@ -646,6 +677,9 @@ func runC19(ctx *Ctx) *Result {
 		}
 	}
 	c19CheckLineRel(ctx, res, lquads)
+	if n, _ := res.Distribution["linerel_inside"].(int); n < 1000 && res.Broken == "" {
+		res.Broken = fmt.Sprintf("coverage floor missed: linerel_inside = %d < 1000", n)
+	}
 
 	res.DistinctNontrivial = nontrivial.n
 	res.Exhaustive = false
@@ -654,8 +688,8 @@ func runC19(ctx *Ctx) *Result {
 		res.Sample(map[string]any{"path": s, "Parts": r.Parts, "Dir": r.Dir, "Clean": r.Clean, "CleanDot": r.CleanDot, "CleanPath": r.CleanPath})
 	}
 	res.Sample(map[string]any{"p": "a/./b", "q": "a/b", "HasPrefixPath|ContainsPath<<1|HasSuffixPath<<2": pkglint.VerifPathPreds("a/./b", "a/b")})
-	for _, i := range []int{4321, nexh / 2, nexh + 5} {
-		if i < len(quads) {
+	for _, i := range []int{len(quads) / 3, len(quads) / 2, len(quads) - 5} {
+		if i >= 0 && i < len(quads) {
 			qd := quads[i]
 			res.Sample(map[string]any{"cwd": qd.cwd, "topdir": qd.top, "from": qd.from, "to": qd.to, "Relpath": pkglint.VerifRelpath(qd.cwd, qd.top, qd.from, qd.to)})
 		}
